@@ -567,6 +567,9 @@ async def sdp_case(case, r: R):
                 hung.append((ci, 'connect'))
                 r.bad('sdp/hang/channel-connect' + multi, f'client {ci} SDP channel connect pending at T_v')
                 return
+        if (cl.channel.mtu, cl.channel.peer_mtu) != (g['client_mtus'][ci], g['server_mtu']):
+            raise RuntimeError(f'harness: SDP channel MTUs {cl.channel.mtu}/{cl.channel.peer_mtu} are not the configured '
+                               f'{g["client_mtus"][ci]}/{g["server_mtu"]}')
         for ti, t in enumerate(g['txs'][ci]):
             for _ in range(yields[ci][ti + 1]):
                 await asyncio.sleep(0)
@@ -667,8 +670,11 @@ async def sdp_case(case, r: R):
             if t.get('need', 1) == WATCHDOG:
                 r.ev('sdp_transactions_at_watchdog_limit')
             bsfx = ('/continued' if t.get('need', 1) >= 2 else '') + multi
+            pp = ''
             if 'pattern' in t:
                 full, partial = pattern_class(records, t['pattern'])
+                # class of the case, not of the outcome: some record holds part of the pattern
+                pp = '/pattern-partly-present-in-some-record' if partial and len(t['pattern']) >= 2 else ''
                 if len(t['pattern']) >= 2:
                     r.ev('sdp_multi_uuid_patterns')
                 if partial:
@@ -685,7 +691,7 @@ async def sdp_case(case, r: R):
             if kind == 'search':
                 want = rs.match(records, t['pattern'])
                 if status != 'ok':
-                    bad('sdp/search/raised' + bsfx, f'{ctx}: {status} {val}')
+                    bad('sdp/search/raised' + pp + bsfx, f'{ctx}: {status} {val}')
                     continue
                 extra = [h for h in val if h not in set(want)]
                 missing = [h for h in want if h not in set(val)]
@@ -711,7 +717,7 @@ async def sdp_case(case, r: R):
                 continue
             # search-attribute
             if status != 'ok':
-                bad('sdp/search-attr/raised' + ('/at-capacity-boundary' if boundary else '') + bsfx,
+                bad('sdp/search-attr/raised' + pp + ('/at-capacity-boundary' if boundary else '') + bsfx,
                       f'{ctx}: {status} {val}')
                 continue
             want_lists = []
@@ -742,11 +748,13 @@ async def sdp_case(case, r: R):
                 cls = search_mismatch_class(records, t['pattern'], extra_records, [])
             elif not bad_lists and unmatched:
                 cls = search_mismatch_class(records, t['pattern'], [], [h for h, _ in unmatched])
+                if cls == 'missing-record':
+                    cls += pp
             else:
                 d = None
                 if bad_lists and unmatched:
                     d = cmp_attr_list(bad_lists[0], unmatched[0][1])
-                cls = (d[0] if d else 'lists-differ') + ('/at-capacity-boundary' if boundary else '')
+                cls = (d[0] if d else 'lists-differ') + pp + ('/at-capacity-boundary' if boundary else '')
             bad(f'sdp/search-attr/{cls}' + bsfx,
                   f'{ctx}: {len(got_lists)} lists, want {len(want_lists)}; lists matching no expected record: '
                   f'{len(bad_lists)} (records not matching the pattern: {[hex(h) for h in extra_records][:5]}); '
